@@ -127,9 +127,12 @@ def c06(res, tier, seed):
             for msg, (rname, robj) in l_viol:
                 res.violation(msg, yv.save_replay("C06", rname, robj))
     # ---- structured family (gen/pegen.py): every table of a generated PE placed last in the file, cut inside it, counts inflated
-    import pegen
-    fam = pegen.family(r, tier)
-    res.cov["parts"]["structured_pe_mutants"] = len(fam)
+    import pegen, elfgen
+    fam_pe = pegen.family(r, tier)
+    fam_elf = [("ELF " + l, d) for l, d in elfgen.family(r, tier)]
+    res.cov["parts"]["structured_pe_mutants"] = len(fam_pe)
+    res.cov["parts"]["structured_elf_mutants"] = len(fam_elf)
+    fam = fam_pe + fam_elf
     queue = [fam[bi:bi + 400] for bi in range(0, len(fam), 400)]
     bi = -1
     while queue:
@@ -150,14 +153,14 @@ def c06(res, tier, seed):
                 elif e["msg"] in ("match", "nomatch"): cur["sig"].append(e["msg"][0])
             elif e["e"] == "ScanRet" and cur is not None and k < len(part):
                 records.append({"kind": "modscan", "ret": e["ret"], "nimport": cur["imp"], "nimported": cur["imped"], "finished": cur["fin"], "nmods": len(MODS)})
-                owners.append(("generated PE", part[k][0]))
+                owners.append(("generated executable", part[k][0]))
                 sigs.add(("pegen", part[k][0].split(" cut=")[0], "".join(cur["sig"])))
                 evaluations += 1
                 cur = None
         if not run.complete:
             kk = k if cur is not None else k + 1
             label = part[kk][0] if 0 <= kk < len(part) else "?"
-            res.violation("scanning a generated PE (%s) crashed / hung / leaked: %s" % (label, yv.crash_summary(run)),
+            res.violation("scanning a generated executable (%s) crashed / hung / leaked: %s" % (label, yv.crash_summary(run)),
                           yv.save_replay("C06", "pegen_%d_%d" % (bi, kk), {"generated": label, "data_hex": part[kk][1].hex() if 0 <= kk < len(part) else "", "crash": yv.crash_summary(run), "stderr": (run.stderr or "")[-3000:]}))
             if 0 <= kk < len(part) - 1 and bi < 60:
                 queue.insert(0, part[kk + 1:])          # the mutants after the crashing one are still scanned
@@ -178,5 +181,7 @@ def c06(res, tier, seed):
                        "all-ones}; scanned with a rule set calling every function of every module while the imported-module callback walks the whole object tree; distinct_nontrivial = "
                        "distinct (seed, verdict vector) signatures = mutants that changed what the modules parsed; plus the structured family of gen/pegen.py: a generated PE32 with "
                        "exports (named, ordinal-only, forwarded), imports, delayed imports, a resource tree with a version block of 0..300 (thorough 1000) keys, debug/CodeView, Rich header "
-                       "and certificate table, with every chunk placed last in the file x cuts inside it x every count field inflated")
+                       "and certificate table, with every chunk placed last in the file x cuts inside it x every count field inflated; and of gen/elfgen.py: a generated ELF64 (both byte orders) with "
+                       "program headers, .dynamic, .dynstr, .dynsym, .symtab, .strtab, .shstrtab and section headers, every chunk last x cuts, unterminated string tables at the end of the file, "
+                       "every count / size / offset / name-index field set to boundary values relative to the file length")
     res.assumptions += ["memory safety for ALL byte strings is not decidable by this technique; a removed bounds check is detected iff a scheduled mutant reaches it (DESIGN.md section 6)"]
